@@ -620,6 +620,16 @@ empty @is_you(int k, int d) {
         for args in ([''], ['x'], ['xyz'], ['xyz', ''], ['xyz', 'p', 'q', 'r'], ['xyz', 'pqr', 'q', 'r'], ['xyz', 'pqr', 'qqq', 'rrr']):
             items.append(runner.Item(('flt', 'idx_literal_str_%d' % K, tuple(args)), src, args, s=120,
                                      meta={'family': 'fault:idx_literal', 'classifier': {'site': 'idx_literal_str'}}))
+    # the last element (`a[a.length - 1]`) and byte-typed indices at the edge of 255 / 256-element arrays
+    src = '''empty @is_you(int n, const int[] v) { int a[n]; for (int i = 0; i < n; i += 1) { a[i] = i + 10; } write('a'); if (n == 9) { write(v[v.length - 1]); } else { write(a[a.length - 1]); a[a.length - 1] += 1; write(a[a.length - 1]); } write('b'); }'''
+    for args in ([0], [1], [3], [9], [9, 4], [9, 4, 5]):
+        items.append(runner.Item(('flt', 'idx_last', tuple(args)), src, [str(x) for x in args], s=120,
+                                 meta={'family': 'fault:idx_last', 'classifier': {'site': 'idx_last'}}))
+    src = '''byte[] T255 = [%s]; byte[] T256 = [%s, 9];
+empty @is_you(int i) { byte b = i is byte; int t5[255]; for (int k = 0; k < 255; k += 1) { t5[k] = k; } write('a'); if (i < 1000) { write(T256[b] is int); write(T255[b] is int); write(t5[b]); } else { T255[b] = 1; } write('b'); }''' % (', '.join(str(k % 251) for k in range(255)), ', '.join(str(k % 251) for k in range(255)))
+    for i in (0, 254, 255, 256 + 255, 1255, 1254):
+        items.append(runner.Item(('flt', 'idx_byte_255', i), src, [str(i)], s=600,
+                                 meta={'family': 'fault:idx_byte_255', 'classifier': {'site': 'idx_byte_255'}}))
     # every syntactic home of a preempt block makes the function preemptive (README: "anywhere in it, even if unreachable")
     homes = {'for': 'for (int i = 0; i < k; i += 1) { preempt { write(\'p\'); } }', 'while': 'int i = 0; while (i < k) { i += 1; preempt { write(\'p\'); } }',
              'else': 'if (k > 5) { write(\'t\'); } else { preempt { write(\'p\'); } }', 'block': '{ { preempt { write(\'p\'); } } }',
